@@ -6,7 +6,7 @@ CONSTANTS
   CompSeqs <- TCompSeqs
   ClientForms <- QForms
   ClientCodecs <- TCodecs
-  ClientComps <- TComps
+  ClientComps <- TMComps
   Methods <- QMethods
   MaxMsgs = 2
   EndCodes <- OkOnly
